@@ -615,6 +615,10 @@ def pair_scenarios(ctx, kinds, cache=False):
     return scs
 
 
+def long_run(s):
+    return s["name"].split("-")[0] in scen.LONG_RUN
+
+
 def map_scenarios(ctx, kinds, pick=None):
     scs = []
     for (kind, kt, vt) in kinds:
@@ -622,6 +626,9 @@ def map_scenarios(ctx, kinds, pick=None):
             for s in scen.map_families(kind, kt, vt, strat):
                 if pick is None or any(s["name"].startswith(p) for p in pick):
                     scs.append(s)
+        for s in scen.map_families(kind, kt, vt, scen.single_preemption(ctx.tier)):
+            if long_run(s) and (pick is None or any(s["name"].startswith(p) for p in pick)):
+                scs.append(s)
     return scs
 
 
@@ -649,6 +656,9 @@ def cache_scenarios(ctx, kinds, pick=None):
             for s in scen.cache_families(kind, kt, vt, strat):
                 if pick is None or any(s["name"].startswith(p) for p in pick):
                     scs.append(s)
+        for s in scen.cache_families(kind, kt, vt, scen.single_preemption(ctx.tier)):
+            if long_run(s) and (pick is None or any(s["name"].startswith(p) for p in pick)):
+                scs.append(s)
     return scs
 
 
@@ -697,6 +707,7 @@ def check_c06(ctx):
     life_check(ctx, lifecycle=False)
     run_conc(ctx, cache_scenarios(ctx, ALL_CACHES, pick=("G1", "G2", "G5", "G6", "G7", "G8", "G9b-visitor-del")), "Trace_CacheLin", "C06", "cache removers", c13=True)  # "the callback runs outside internal locks": a re-entrant callback that hangs is a C06 violation too
     check_seq_cache_light(ctx, "C06")
+    run_seq(ctx, reentrant_pass_programs(), "Trace_CacheSeq", "C06", "passes of 1..200 evictions with a re-entrant callback")
 
 
 def check_c07(ctx):
@@ -716,13 +727,31 @@ def check_c08(ctx):
     check_seq_cache_light(ctx, "C08")
 
 
+def reentrant_pass_programs():
+    """Sequential programs whose evicted callback calls back into the cache (reads the evicted key, counts), with passes
+    that evict 1..200 entries at once, single removals and Clear; every call runs under the harness watchdog."""
+    S = scen.S
+    progs = []
+    for kind, kt, vt in ALL_CACHES:
+        for n in (1, 5, 63, 64, 65, 130, 200):
+            ops = [S("Set", "k%d" % i, "v%d" % i, d=5) for i in range(1, n + 1)] + [S("Set", "k900", "v900", d=50), S("SetForever", "k901", "v901")]
+            ops += [S("Tick", d=6), S("Count"), S("DeleteExpired"), S("Count"), S("Items")]
+            ops += [S("Set", "k%d" % i, "w%d" % i, d=5) for i in range(1, min(n, 70) + 1)] + [S("Tick", d=6)]
+            ops += [S("Delete", "k1"), S("GetAndDelete", "k2"), S("Delete", "k900"), S("DeleteExpired"), S("Count"), S("Clear"), S("Count")]
+            cfg = {"kind": kind, "keytype": kt, "valtype": vt, "ctor": "New", "hasdef": True, "def": 0, "hasintv": True, "interval": 0, "cb": "cbGet"}
+            progs.append({"cache": cfg, "unit": 1, "ops": ops, "watch": True, "note": "re-entrant callback, pass of %d" % n})
+    return progs
+
+
 def check_c13(ctx):
     scs = map_scenarios(ctx, ALL_MAPS if ctx.thorough else ALL_MAPS[:2])
     for (kind, kt, vt) in (ALL_MAPS if ctx.thorough else ALL_MAPS[:2]):
         for strat in scen.strategies(ctx.tier, lib.seed()):
             scs += scen.termination_families(kind, kt, vt, strat)
+        scs += [s for s in scen.termination_families(kind, kt, vt, scen.single_preemption(ctx.tier)) if long_run(s)]
     run_conc(ctx, scs, "Trace_MapLin", "C13", "map families (termination)", c13=True)
     run_conc(ctx, cache_scenarios(ctx, ALL_CACHES), "Trace_CacheLin", "C13", "cache families (termination, re-entrant callbacks)", c13=True)
+    run_seq(ctx, reentrant_pass_programs(), "Trace_CacheSeq", "C13", "passes of 1..200 evictions with a re-entrant callback")
     ctx.assumptions += ["verdict = scheduler-observed deadlock (some thread unfinished, none enabled) or fair step budget exhausted; fair-yield rule: a thread that called Gosched is deprioritised until another thread performs a store-type operation"]
 
 
